@@ -59,7 +59,7 @@ def main():
             r = subprocess.run([os.path.join(VERIF, "check"), pid, tier], cwd=VERIF, env=env, capture_output=True, text=True)
             refuted = []
             try:
-                with open(os.path.join(root, "evidence", pid + ".json")) as fh:
+                with open(os.path.join(root, "evidence", pid + ".json")) as fh:  # full (non --unit) runs only
                     refuted = sorted(set(json.load(fh)["coverage"].get("refuted", [])))
             except Exception:
                 pass
